@@ -141,6 +141,7 @@ static void myth_setup_worker(int rank) {
   myth_running_env_t env = &g_envs[rank];
   env->rank = rank;
   MYTH_VERIF_WORKER(rank);
+  MYTH_VERIF_EV1("WorkerStart", rank);
   env->exit_flag = 0;
   memset(&env->prof_data, 0, sizeof(myth_prof_data));
   //Initialize allocators
@@ -261,6 +262,7 @@ static inline void myth_cleanup_worker(int rank)
 #endif
   //synchronize
   myth_internal_barrier_wait(&g_worker_barrier);
+  MYTH_VERIF_EV1("WorkerExit", rank);
   myth_running_env_t env;
   env=myth_get_current_env();
   //cleanup timer
